@@ -1,11 +1,24 @@
 // vcheck is the entry point of the verification machinery: `vcheck Cnn --tier quick|thorough`.
+//
+// The check itself runs in a child process of this binary. The code under test runs inside
+// that child; if it crashes the process (a Go panic in a library goroutine, `fatal error:
+// concurrent map writes`, stack overflow ...) the parent turns the crash into a verdict:
+// a crash whose stack lies in the library is a violation, anything else a broken check.
 package main
 
 import (
+	"bytes"
+	"encoding/json"
 	"flag"
 	"fmt"
+	"io"
 	"os"
+	"os/exec"
+	"path/filepath"
+	"regexp"
+	"strconv"
 	"strings"
+	"time"
 
 	"github.com/kercylan98/vivid/verifharness/checks"
 	"github.com/kercylan98/vivid/verifharness/core"
@@ -13,7 +26,7 @@ import (
 
 func main() {
 	if len(os.Args) < 2 {
-		fmt.Println("usage: vcheck <Cnn> [--tier quick|thorough] | vcheck --list")
+		fmt.Println("usage: vcheck <Cnn> [--tier quick|thorough] | vcheck --list | vcheck --replay <file>")
 		os.Exit(2)
 	}
 	if code, ok := checks.Subcommand(os.Args[1:]); ok {
@@ -34,6 +47,9 @@ func main() {
 	}
 	if *tier != "quick" && *tier != "thorough" {
 		*tier = "quick"
+	}
+	if os.Getenv("VCHECK_CHILD") == "" {
+		os.Exit(supervise(id, *tier))
 	}
 	c, err := core.NewCtx(id, *tier)
 	if err != nil {
@@ -56,4 +72,106 @@ func envOr(k, d string) string {
 		return v
 	}
 	return d
+}
+
+var reFrame = regexp.MustCompile(`^(\S+)\(.*\)$|^(\S+)\.\S+$`)
+
+// supervise runs the check in a child process and interprets a crash of that process.
+func supervise(id, tier string) int {
+	start := time.Now()
+	ev := filepath.Join(core.VerifDir(), "evidence", id+".json")
+	_ = os.Remove(ev)
+	cmd := exec.Command(os.Args[0], os.Args[1:]...)
+	cmd.Env = append(os.Environ(), "VCHECK_CHILD=1")
+	cmd.Stdout = os.Stdout
+	var errBuf bytes.Buffer
+	cmd.Stderr = io.MultiWriter(&tailWriter{buf: &errBuf, max: 1 << 20})
+	err := cmd.Run()
+	code := 0
+	if err != nil {
+		if ee, ok := err.(*exec.ExitError); ok {
+			code = ee.ExitCode()
+		} else {
+			fmt.Println("BROKEN-CHECK cannot run child:", err)
+			return 2
+		}
+	}
+	if _, serr := os.Stat(ev); serr == nil {
+		// the child finished in an orderly way and wrote its evidence
+		if errBuf.Len() > 0 && code != 0 {
+			os.Stderr.Write(errBuf.Bytes())
+		}
+		return code
+	}
+	log := errBuf.String()
+	inLib, where := crashInLibrary(log)
+	seed, _ := strconv.ParseInt(envOr("VERIF_SEED", "1"), 10, 64)
+	if !inLib {
+		os.Stderr.WriteString(log)
+		fmt.Printf("BROKEN-CHECK property=%s the check process died (exit %d) outside the library code\n", id, code)
+		return 2
+	}
+	dir := filepath.Join(core.VerifDir(), "replays")
+	_ = os.MkdirAll(dir, 0o755)
+	p := filepath.Join(dir, fmt.Sprintf("%s-%s-%d-crash.json", id, tier, seed))
+	if len(log) > 20000 {
+		log = log[:20000]
+	}
+	b, _ := json.MarshalIndent(map[string]any{"property": id, "tier": tier, "seed": seed, "monitor": "ProcessCrash",
+		"detail": "the code under test crashed the process while the check was driving it", "where": where, "log": log}, "", " ")
+	_ = os.WriteFile(p, b, 0o644)
+	evd := core.Evidence{PropertyID: id, Tier: tier, Seed: seed, Level: "model_checking", WallS: time.Since(start).Seconds(), Violations: 1,
+		Coverage: map[string]any{"evaluations": 1, "distinct_nontrivial": 0, "explanation": "the run was cut short: the library crashed the process at " + where,
+			"samples": []any{where}}}
+	eb, _ := json.MarshalIndent(evd, "", " ")
+	_ = os.WriteFile(ev, eb, 0o644)
+	fmt.Printf("VIOLATION property=%s replay=%s monitor=ProcessCrash class=process-crash the library crashed the process: %s\n", id, p, where)
+	return 1
+}
+
+// crashInLibrary looks at the first goroutine of a Go crash dump: a crash is attributed to the library
+// if a library frame (github.com/kercylan98/vivid/..., not the harness) appears before any harness frame.
+func crashInLibrary(log string) (bool, string) {
+	idx := strings.Index(log, "panic:")
+	if j := strings.Index(log, "fatal error:"); j >= 0 && (idx < 0 || j < idx) {
+		idx = j
+	}
+	if idx < 0 {
+		return false, ""
+	}
+	lines := strings.Split(log[idx:], "\n")
+	headline := strings.TrimSpace(lines[0])
+	seenGoroutine := false
+	for _, ln := range lines[1:] {
+		if strings.HasPrefix(ln, "goroutine ") {
+			if seenGoroutine {
+				break
+			}
+			seenGoroutine = true
+			continue
+		}
+		if !seenGoroutine || strings.HasPrefix(ln, "\t") || strings.TrimSpace(ln) == "" {
+			continue
+		}
+		fn := strings.TrimSpace(ln)
+		if strings.HasPrefix(fn, "github.com/kercylan98/vivid/verifharness/") {
+			return false, headline
+		}
+		if strings.HasPrefix(fn, "github.com/kercylan98/vivid") {
+			return true, headline + " in " + strings.SplitN(fn, "(", 2)[0]
+		}
+	}
+	return false, headline
+}
+
+type tailWriter struct {
+	buf *bytes.Buffer
+	max int
+}
+
+func (t *tailWriter) Write(p []byte) (int, error) {
+	if t.buf.Len() < t.max {
+		t.buf.Write(p)
+	}
+	return len(p), nil
 }
